@@ -63,6 +63,7 @@ func TestCheck(t *testing.T) {
 	rt.Enum(e, "u-methods", func(yield func(Case) bool) { enumMethods(e, "u", yield) }, Run)
 	rt.Enum(e, "m-funcs", func(yield func(Case) bool) { enumFuncs(e, "m", yield) }, Run)
 	rt.Enum(e, "u-funcs", func(yield func(Case) bool) { enumFuncs(e, "u", yield) }, Run)
+	rt.Rapid(e, "owned", 60_000, 600_000, genOCase, RunOwned)
 	rt.Rapid(e, "rapid-m", 250_000, 3_000_000, genCase("m"), Run)
 	rt.Rapid(e, "rapid-u", 250_000, 3_000_000, genCase("u"), Run)
 }
